@@ -70,7 +70,7 @@ mod verif_c07 {
     fn readers(e: &CacheEntry) -> usize { e.inner().inner.dynamic.as_ref().unwrap().lock.verif_readers() }
 
     // (a) every kind of guard holds the read lock for exactly its own lifetime
-    // @h name=c07_guard_pins_lock tier=quick
+    // @h name=c07_guard_pins_lock tier=quick props=C07
     #[kani::proof]
     #[kani::unwind(4)]
     fn c07_guard_pins_lock() {
@@ -126,7 +126,7 @@ mod verif_c07 {
 
     // (b) write(): everything observable changes strictly inside the write section, the old value
     //     is dropped after the lock is released
-    // @h name=c07_write_section tier=quick
+    // @h name=c07_write_section tier=quick props=C07,C06
     #[kani::proof]
     #[kani::unwind(4)]
     fn c07_write_section() {
@@ -174,7 +174,7 @@ mod verif_c07 {
     }
 
     // (c) a write attempted while a read guard lives blocks before touching anything
-    // @h name=c07_write_blocks_under_guard tier=quick
+    // @h name=c07_write_blocks_under_guard tier=quick props=C07
     #[kani::proof]
     #[kani::unwind(4)]
     fn c07_write_blocks_under_guard() {
